@@ -13,36 +13,6 @@ func init() {
 	vfHarnesses["VerifH_incoming"] = VerifH_incoming
 }
 
-const refB64Std = "ABCDEFGHIJKLMNOPQRSTUVWXYZabcdefghijklmnopqrstuvwxyz0123456789+/"
-
-// refBase64Encode: RFC 4648 standard alphabet, optionally padded.
-func refBase64Encode(b []byte, pad bool) string {
-	out := make([]byte, 0, (len(b)+2)/3*4)
-	for i := 0; i < len(b); i += 3 {
-		var v uint32
-		n := 0
-		for j := 0; j < 3; j++ {
-			v <<= 8
-			if i+j < len(b) {
-				v |= uint32(b[i+j])
-				n++
-			}
-		}
-		out = append(out, refB64Std[(v>>18)&63], refB64Std[(v>>12)&63])
-		if n >= 2 {
-			out = append(out, refB64Std[(v>>6)&63])
-		} else if pad {
-			out = append(out, '=')
-		}
-		if n >= 3 {
-			out = append(out, refB64Std[v&63])
-		} else if pad {
-			out = append(out, '=')
-		}
-	}
-	return string(out)
-}
-
 // VerifH_binhdr (C14): '-bin' header values decode to the original bytes whether or not the base64
 // text is padded (gRPC PROTOCOL-HTTP2: implementations must accept both), and encodeBinHeader
 // produces text that decodes back.
